@@ -146,7 +146,17 @@ def s_split(ex, c, args, m):
 def s_parse(ex, c, args, m):
     s = S(args[0])
     if not isinstance(s, SStr): return NotImplemented
-    raise Unsupported('integer parsing of a symbolic string (stub Slot::named for text-level runs)')
+    # decimal parse of a short symbolic string: optional '+', then one or more ASCII digits; 9 digits always fit a u32
+    cs = [cval(c) for c in s.cs()]
+    if len(cs) > 9: raise Unsupported('integer parsing of a symbolic string of more than 9 characters')
+    if cs and ex.decide(cs[0] == ord('+')): cs = cs[1:]
+    if not cs: return err(Opaque('ParseIntError'))
+    for c_ in cs:
+        if not ex.decide(z3.And(z3.UGE(c_, ord('0')), z3.ULE(c_, ord('9')))): return err(Opaque('ParseIntError'))
+    w = 64 if m.group(1) != 'u32' else 32
+    v = z3.BitVecVal(0, w)
+    for c_ in cs: v = v * 10 + (z3.ZeroExt(w - 32, c_ - ord('0')) if w > 32 else (c_ - ord('0')))
+    return ok(v)
 
 class SChoice:
     """a string that is one of a few literals, selected by a solver variable (identifier tokens)"""
